@@ -2,7 +2,7 @@
 import itertools
 
 from harness import gen_loc
-from harness.impl_loc import impl_loc_op, enc_loc
+from harness.impl_loc import impl_loc_op, enc_loc, strip_history, XFORMS, FLIP
 
 ID = "C01"
 ERR_CLASS = True
@@ -38,9 +38,15 @@ G_TWIN = {"p2r": "gp2r", "r2p": "gr2p", "relint": "grelint"}
 def _with_twins(lines, run, share):
     """every line, plus — for a `share` of the p2r/r2p/relint lines — the twin line whose model answer comes from the
     GENERATED kernels (same real-library call on the implementation side)"""
+    hshare = 0.08 if run.tier == "quick" else 0.2
     for ln in lines:
         yield ln
         op, _, rest = ln.partition(" ")
+        if op in ("r2p", "p2r", "relint", "locrel", "optimize", "len") and run.rng.random() < hshare:
+            h = _hist_twin(ln, run.rng)
+            if h:
+                run.count("history-twin:" + h.split()[2])
+                yield h
         if op in G_TWIN and run.rng.random() < share:
             run.count("gen-twin:" + G_TWIN[op])
             yield f"{G_TWIN[op]} {rest}"
@@ -50,17 +56,47 @@ def impl(line):
     return impl_loc_op(line)
 
 
+def lean_line(line):
+    """history-free form of a line for the Lean drivers (see engine.evaluate)"""
+    return " ".join(strip_history(line.split())) if " H " in line else line
+
+
+def _hist_twin(line, rng):
+    """the same mathematical operation reached through a CALL HISTORY: the location is first built on another strand
+    (or the same), asked every argument-less question (blocks, is_overlapping, maps, … : caches warm), and only then
+    brought to the strand of the line by reset_strand / reverse_strand / shift_position(0) / reset_parent"""
+    t = line.split()
+    if len(t) < 4 or t[1] not in ("S", "C"):
+        return None
+    st = t[2]
+    xf = rng.choice(["rs" + st, "rs" + st, "rv", "rv2", "sh0", "rp"])
+    if xf.startswith("rs"):
+        inner = rng.choice([x for x in "+-." if x != st] + [st])
+    elif xf == "rv":
+        inner = FLIP[st]
+    else:
+        inner = st
+    return " ".join([t[0], "H", xf, t[1], inner] + t[3:])
+
+
+# the interval-class wrappers of the coordinate maps (sequence_pos_to_feature / feature_pos_to_sequence and the interval
+# forms, on whole-chromosome, parent-less and sequence-chunk parents) are observed through C06's operations
+BORROW = [dict(prop="c06", max=6000,
+               ops={"c2t", "t2c", "ci2t", "ti2c", "kc2t", "kt2c", "kci2t", "cr2t", "t2cr", "cri2t", "ti2cr"},
+               why="C01 observe_at: AbstractFeatureInterval.sequence_pos_to_feature / feature_pos_to_sequence wrappers")]
+
+
 def spec_skip(line):
     """Spec.bases materialises every covered position: skip the spec on huge coordinates / many blocks
     (those cases are compared against the model only)."""
-    t = line.split()
+    t = strip_history(line.split())
     if t[0] in G_OPS:      # answered by the generated kernels on the model side; the spec judges the twin p2r/r2p/relint line
         return True
     return len(t) > 400 or any(len(x) > 4 for x in t[2:])
 
 
 def nontrivial(line, ans):
-    t = line.split()
+    t = strip_history(line.split())
     if not ans.startswith("ok"):
         return None
     if t[1] == "C" and int(t[3]) >= 2:
